@@ -25,6 +25,8 @@ SAN = {
     'tsan': (['clang'], ['-O1', '-g', '-fno-omit-frame-pointer', '-fsanitize=thread']),
 }
 
+NONREENTRANT = ('localtime', 'gmtime', 'ctime', 'asctime', 'getpwuid', 'getpwnam', 'getgrgid', 'getgrnam', 'ttyname', 'getlogin', 'strtok', 'strerror')
+
 SCHED_DEFS = ['-Dpthread_mutex_lock=vs_mutex_lock', '-Dpthread_mutex_unlock=vs_mutex_unlock',
               '-Dpthread_once=vs_once', '-Dpthread_mutex_init=vs_mutex_init']
 
@@ -79,12 +81,13 @@ def gen_config_h(outdir, ts=True, extra_undef=(), extra_def=(), compiled_in=Fals
         f.write('\n'.join(out) + '\n')
 
 
-def lib_sources(repo, ts=True):
+def lib_sources(repo, ts=True, syslog_output=False):
     s = []
     for pat in ['src/*.c', 'src/action/*.c', 'src/datasource/*.c', 'src/filter/*.c',
                 'src/output/*.c', 'src/util/*.c']:
         s += sorted(glob.glob(os.path.join(repo, pat)))
-    s = [x for x in s if not x.endswith('/syslogoutput.c')]
+    if not syslog_output:
+        s = [x for x in s if not x.endswith('/syslogoutput.c')]
     if not ts:
         s = [x for x in s if not x.endswith('/src/tsrm.c') and not x.endswith('/util/list.c')
              and not x.endswith('/datasource/snoopy_threads.c')]
@@ -109,7 +112,7 @@ def compile_many(jobs):
 
 
 def build_variant(name, ts=True, san='asan', sched=False, pic=False, entry=('execve-wrapper',),
-                  repo=None, extra_cflags=(), force=True, compiled_in=False):
+                  repo=None, extra_cflags=(), force=True, compiled_in=False, nonreentrant=False, syslog_output=False):
     """Compile the library sources into BUILD/<name>/obj/*.o; returns dict(dir, objs, cc, cflags, ldflags)."""
     repo = repo or REPO
     d = os.path.join(BUILD, '%s-%d' % (name, os.getpid()))      # per-process: the same check may run twice at the same time
@@ -117,7 +120,7 @@ def build_variant(name, ts=True, san='asan', sched=False, pic=False, entry=('exe
         shutil.rmtree(d, ignore_errors=True)
     od = os.path.join(d, 'obj')
     os.makedirs(od, exist_ok=True)
-    gen_config_h(os.path.join(d, 'inc'), ts=ts, compiled_in=compiled_in)
+    gen_config_h(os.path.join(d, 'inc'), ts=ts, compiled_in=compiled_in, extra_def=(['SNOOPY_CONF_OUTPUT_ENABLED_syslog 1'] if syslog_output else ()))
     cc, sflags = SAN[san]
     cflags = COMMON_WARN + sflags + ['-I' + os.path.join(d, 'inc'), '-I' + os.path.join(repo, 'src'),
                                      '-I' + repo] + list(extra_cflags)
@@ -125,7 +128,10 @@ def build_variant(name, ts=True, san='asan', sched=False, pic=False, entry=('exe
         cflags.append('-fPIC')
     if sched:
         cflags += SCHED_DEFS
-    srcs = lib_sources(repo, ts)
+    if nonreentrant:
+        # non-reentrant libc calls made by the library are redirected to counting stand-ins (native/nonreentrant.c, linked by the harness)
+        cflags += ['-D%s=vs_%s' % (f, f) for f in NONREENTRANT]
+    srcs = lib_sources(repo, ts, syslog_output)
     for e in entry:
         srcs.append(os.path.join(repo, 'src/entrypoint', e + '.c'))
     jobs, objs = [], []
